@@ -67,7 +67,7 @@ def meta(tier):
         'functions': loader.functions_encoded(fns), 'sig': sig,
         'bounds': 'inductive step over %d catalogue operations (tv/scen/ops.py + tv/scen/c05.py: constructors, algebra, rounding, slicing, reshaping, permute, QTT, cat/pad/diag/mprod/kron/dot, '
                   'set_core, reduce_dims, DMRG products with <= 2 sweeps) from a pre-state of 1..3 well-formed TT objects of order 1..2 (thorough 3) whose mode sizes and ranks are symbolic '
-                  'integers in [1,3] ([1,4] thorough; [1,2] for the DMRG routines); post-condition checked on every operand and result' % ncat,
+                  'integers in [1,3] ([1,4] thorough; [1,2] for the DMRG routines); post-condition checked on every operand and result; every non-DMRG operation also followed by set_core(0, core of other mode sizes) on its result' % ncat,
         'outside': 'AMEn / division / cross interpolation (data-dependent inner loops); orders above the bound; values',
         'assumptions': ['shapetorch models torch shape calculus (validated per run against real torch on seeded sizes)',
                         'factorizations and rank selection are havoc at this level (factors of the contractually right shape, any rank in range)',
